@@ -21,6 +21,7 @@ META = {
             "plus 400 (quick) / 4000 (thorough) big dict / set trials (20-400 long-string keys, several table doublings and overflow chains) against a naive oracle in Go; (b) generated dict/set/struct/json/dir()/load/time-heavy programs, including dicts and sets of hundreds of long-string keys (keys >= 12 bytes, one third ending in an error raised inside nested calls) are executed in k fresh processes (new hash seed each), three times in one process and on concurrent goroutines; "
             "the canonical transcript (prints, every global serialised with its iteration orders, String(), raw AttrNames(), error message + backtrace, ExecutionSteps()) must be identical; "
             "every program is also run again after ALL other programs have run in the process (state left behind by another execution must not change it) and on a Thread that has already executed other programs, one of them failing (a reused thread must behave like a fresh one); "
+            "probe programs exposing the Go-level attribute listings and spelling hints of every built-in type run first and again last; frozen list/dict/set values shared by goroutines are iterated by some while others attempt every mutation (each error message must be the single-threaded one); "
             "(c) the SAME compiled Program is initialised on many goroutines at once (error programs, and a stress with a freshly reloaded 24 000-line chain program per trial so that lazily decoded tables are built under contention); in the thorough tier the concurrent runs are repeated under Go's race detector.",
     "note": "Trusted: Coq kernel + vm_compute; the harness (program generator, canonical serialiser, process/goroutine drivers), the Go AST walker and its syntactic recognition of map-typed expressions. "
             "The refinement of the real hashtable.go (8-entry buckets, overflow chains) to an insertion-ordered map is C12's theorem; it is no longer an assumed dependency: coq/C03/ProofsC12.v imports C12's theorems and proves hash independence and determinism over C12's model of the real table as corollaries (the simple bucketed table of Model.v is kept, and proved to give the same transcripts). "
@@ -220,7 +221,7 @@ Definition firsts := Eval vm_compute in map (fun c : list op * list event => fir
     cov = {
         "evaluations": summ["executions"] + nops,
         "distinct_nontrivial": summ["programs"] + len(set(cases)),
-        "rule": "programs: seeded generator, 2-5 blocks out of {dictlong, setops, structs, dirs, json, hashes, strfmt, closures, timefixed, loadmod, bigdict, bigset} (bigdict: dicts of 60-480 long-string keys grown one insertion at a time with membership checked after every insertion, deletions, re-insertions; bigset: subset / superset / equality / algebra queries on sets of 40-400 long strings; both over-weighted) (every block kind is the first block of one program), one third end in one of 12 error endings; "
+        "rule": "programs: seeded generator, 2-5 blocks out of {dictlong, setops, structs, dirs, json, hashes, strfmt, closures, timefixed, loadmod, bigdict, deepkeys, bigset} (bigdict: dicts of 60-480 long-string keys grown one insertion at a time with membership checked after every insertion, deletions, re-insertions; bigset: subset / superset / equality / algebra queries on sets of 40-400 long strings; both over-weighted) (every block kind is the first block of one program), one third end in one of 12 error endings; "
                 "each program runs in k fresh processes, 3 times in one process and on g goroutines twice; histories: seeded operation sequences over keys drawn from a pool of mostly >= 12-byte strings; distinct = programs + distinct histories",
         "samples": [summ["sample_program"][:600], summ["sample_transcript"][:600], hist[0]["ops"][:6] if hist else None],
         "distribution": summ["distribution"], "programs_ending_in_error": summ["with_error"],
